@@ -21,21 +21,20 @@ def run_netlocal(wd, seed, segments, steps, par=8, tag="nl"):
     r = vlib.tlc("NetLocalTrace", "NetLocalTrace.cfg", wd, workers=1, timeout=1800, files=[tmp])
     if not r.ok:
         raise vlib.Inconclusive("trace validation did not complete (exit %s, violated=%s)\n%s" % (r.exit, r.violated, r.output[-2000:]))
-    done = re.search(r'<<"DONE", (\d+)>>', r.output)
-    if not done or int(done.group(1)) != len(lines):
-        raise vlib.Inconclusive("trace not consumed completely: %s of %d lines" % (done.group(1) if done else "?", len(lines)))
-    classes = {}
-    for m in re.finditer(r'<<"CLASS", "([a-z_]+)">>', r.output):
-        classes[m.group(1)] = classes.get(m.group(1), 0) + 1
+    classes, pdiffs, done = vlib.parse_trace_output(r.output)
+    if done != len(lines):
+        raise vlib.Inconclusive("trace not consumed completely: %s of %d lines" % (done, len(lines)))
+    nsteps = sum(1 for l in lines if l["ev"] not in ("reset", "end"))
+    total = sum(classes.values())
+    if nsteps and total % nsteps == 0 and total // nsteps > 1:
+        k = total // nsteps
+        classes = {c: v // k for c, v in classes.items()}
     diffs = []
-    for m in re.finditer(r'<<"DIFF", (\d+), "([a-z_]+)", \{([^}]*)\}>>', r.output):
-        ln = int(m.group(1))
-        fields = sorted(x.strip().strip('"') for x in m.group(3).split(",") if x.strip())
-        # the segment up to the failing line is the replay
+    for ln, name, fields in pdiffs:
         start = ln - 1
         while start > 0 and lines[start]["ev"] != "reset":
             start -= 1
-        diffs.append({"line": ln, "class": m.group(2), "fields": fields, "segment": lines[start:ln]})
+        diffs.append({"line": ln, "class": name, "fields": fields, "segment": lines[start:ln]})
     return {"harness": res, "tlc": r, "lines": lines, "classes": classes, "diffs": diffs,
             "steps": sum(1 for l in lines if l["ev"] == "step"), "segments": sum(1 for l in lines if l["ev"] == "reset"),
             "hooks": hooks}
